@@ -651,14 +651,17 @@ func init() {
 		if iSw < 0 {
 			return
 		}
-		// nothing after the switch prints results
+		// nothing after the switch touches the results (the verbose timing line is all there is today; its wording is free)
 		tailOK := true
 		for _, st := range body[iSw+1:] {
-			if src(st) != `if flags.verbose { fmt.Printf("Search completed in %v\n", searchDuration) }` {
-				tailOK = false
-			}
+			ast.Inspect(st, func(nd ast.Node) bool {
+				if id, ok := nd.(*ast.Ident); ok && (id.Name == "results" || id.Name == "db" || id.Name == "searchHistory") {
+					tailOK = false
+				}
+				return true
+			})
 		}
-		x.Assert("cli:nothing-but-timing-after-render", tailOK, "statements after the format switch other than the verbose timing line")
+		x.Assert("cli:nothing-but-timing-after-render", tailOK, "a statement after the format switch refers to the results, the database or the history")
 		// ---- 10. the three branches
 		sw := body[iSw].(*ast.SwitchStmt)
 		var jsonC, tableC, listC *ast.CaseClause
